@@ -18,7 +18,7 @@ import os
 import time
 from fractions import Fraction
 
-from vlib import (INT_TYPES, Driver, cxx, kv, pmap, run, ty_hi, ty_lo, SAN_CLANG, SAN_GCC)
+from vlib import (INT_TYPES, Driver, cxx, kv, link_cmd, pmap, run, ty_hi, ty_lo)
 from intconv import _cheap
 
 OPS_COMMON = ["eq", "ne", "lt", "le", "gt", "ge", "add", "sub"]
@@ -393,6 +393,16 @@ static i128 tlo(int bits, int sg) { return sg ? -((i128)1 << (bits - 1)) : 0; }
 static i128 thi(int bits, int sg) { return sg ? ((i128)1 << (bits - 1)) - 1 : ((i128)1 << bits) - 1; }
 // exact: lo <= v*k <= hi, without overflowing i128 (k > 0)
 static bool fits(i128 v, i128 k, i128 lo, i128 hi) { return v >= 0 ? v <= hi / k : v >= lo / k; }
+#if defined(__clang__)
+#define NOWRAPSAN __attribute__((no_sanitize("unsigned-integer-overflow", "undefined")))
+#else
+#define NOWRAPSAN
+#endif
+// digest arithmetic is modular on purpose: keep it out of the sanitizer's counts
+NOWRAPSAN static uint64_t cell_weight(i128 v1, i128 v2) {
+    return (((uint64_t)v1 * 6364136223846793005ull) + ((uint64_t)v2 * 1442695040888963407ull)) | 1ull;
+}
+NOWRAPSAN static uint64_t digest_add(uint64_t h, i128 r, uint64_t wt) { return h + ((uint64_t)r + 1ull) * wt; }
 static i128 wrapto(i128 x, int bits, int sg) {
     const i128 m = (i128)1 << bits; i128 r = x % m; if (r < 0) r += m;
     if (sg && r >= (m >> 1)) r -= m;
@@ -457,7 +467,7 @@ int main() {
                 if (!fc) continue;                       // out of the statement's scope: never executed
                 const i128 A = v1 * k1, B = v2 * k2;
                 const bool fo = true;   // since the fix of F11/F17, % and <=> scale in the common rep: one scope for all operators
-                const uint64_t wt = (((uint64_t)v1 * 6364136223846793005ull) + ((uint64_t)v2 * 1442695040888963407ull)) | 1ull;
+                const uint64_t wt = cell_weight(v1, v2);
                 i128 got[10]; bool have[10] = {false};
                 for (int w = 0; w < 10; ++w) {
                     bool scope, dscope; i128 want = 0;
@@ -497,7 +507,7 @@ int main() {
                         if (dscope) { if (!s.badown++) s.firstown = s128(v1) + "," + s128(v2) + "," + s128(r) + "," + s128(want); }
                         else { if (!s.badout++) s.firstout = s128(v1) + "," + s128(v2) + "," + s128(r) + "," + s128(want); }
                     }
-                    if (dscope) { ++s.dn; s.h += ((uint64_t)r + 1ull) * wt; }
+                    if (dscope) { ++s.dn; s.h = digest_add(s.h, r, wt); }
                 }
                 // mutual consistency of the six comparisons on the implementation's own answers, and mirror forms
                 if (e->common_ok && have[0] && have[1] && have[2] && have[3] && have[4] && have[5]) {
@@ -612,8 +622,7 @@ def build_harness(wd, files, compiler, std, tag):
         return None, [{"src": mainp, "output": out[-4000:]}], dead
     objs.append(obj)
     exe = os.path.join(wd, f"harness_{tag}")
-    san = SAN_CLANG if compiler.startswith("clang") else SAN_GCC
-    rc, out, err = run([compiler] + san + objs + ["-o", exe])
+    rc, out, err = run(link_cmd(compiler, objs, exe))
     if rc != 0:
         return None, [{"src": "link", "output": (out + err)[-4000:]}], dead
     return exe, failures, dead
@@ -862,10 +871,14 @@ def explore(prop, tier, seed, rng, wd):
     mu = model_units(drv, insts + finsts)
     gates = model_gates(drv, insts, mu)
     files = write_harness(wd, insts + finsts, gates)
-    configs = [("g++", "c++14", "g14"), (("clang++-14", "c++20", "c20") if seed % 2 == 0 else ("g++", "c++20", "g20"))]
+    # "exact" = clang++-14 with the exact-count UBSan handlers (vlib.SAN_EXACT): EVERY undefined operation / unsigned
+    # wrap calls __ubsan_on_report, so the per-input `ub` counts are reliable there (the full runtimes report a source
+    # location once per process, and g++'s libubsan never calls the executable's hook).  C++20 so that <=> runs.
+    configs = [("g++", "c++14", "g14"), ("exact", "c++20", "x20")]
     if tier == "thorough":
         configs = [("g++", "c++14", "g14"), ("g++", "c++17", "g17"), ("g++", "c++20", "g20"),
-                   ("clang++-14", "c++14", "c14"), ("clang++-14", "c++17", "c17"), ("clang++-14", "c++20", "c20")]
+                   ("clang++-14", "c++14", "c14"), ("clang++-14", "c++17", "c17"), ("clang++-14", "c++20", "c20"),
+                   ("exact", "c++20", "x20"), ("exact", "c++14", "x14")]
     by_id = {i["id"]: i for i in insts + finsts}
     stats = {"instances": len(insts), "float_instances": len(finsts), "triangles": len(tri), "configs": [], "rep_pairs": {},
              "ratio_classes": {}, "gate": {"common_ok": 0, "common_rejected": 0, "own_ok": 0, "own_rejected": 0},
